@@ -120,13 +120,15 @@ Step == /\ l <= Len(T)
 
 (* what the stacks do on their own.  Handlers of different sides and of different connections commute (each changes
    its own side's tables and appends to the other side's queue; Frame_Indep), so only one order is explored: the
-   lowest (connection, side) that has something to do goes first.  When the link of a connection actually goes
+   lowest (connection, side) that has something to do goes first - except between the two sides of a link that is
+   about to drop.  When the link of a connection actually goes
    away relative to that connection's handlers does matter and is explored.  A drain returns silently only when
    its `res` is the next observation.                                                                        *)
 \* (on a link with orphans a configuration may never end: it is not "work" that others have to wait for)
 HasWork(c, s) == c \notin untr /\ (msgs[c][s] # <<>> \/ (~taint[c] /\ \E ch \in chan[s][c] : ch.st = "config"))
 Rank(c, s)    == 2 * c + (IF s = "c" THEN 0 ELSE 1)
-First(c, s)   == \A c2 \in Conns, s2 \in Sides : Rank(c2, s2) < Rank(c, s) => ~HasWork(c2, s2)
+\* (while a link drop is pending on c, WHERE the two ends of c are cut matters: every interleaving of c's two sides is explored)
+First(c, s)   == \A c2 \in Conns, s2 \in Sides : (Rank(c2, s2) < Rank(c, s) /\ HasWork(c2, s2)) => (c2 = c /\ dying[c])
 Handlers(s, c) == RecvCreqP(s, c, AcceptPool(s, c)) \/ RecvCrsp(s, c) \/ RecvDreq(s, c) \/ RecvDrsp(s, c) \/ ConfigDone(s, c)
 
 Silent == /\ l <= Len(T)
